@@ -143,6 +143,11 @@ for i in _gi.guard_instances():
         H(i["name"], "guard.rs", "GUARD(cover)", ["C12"], i["tier"],
           "%s: some state of depth %d enables the opcode (cover query must be satisfiable)" % (i["opname"], i["n"]),
           stubs=HEAP_STUBS, funcs=["Generator::can_emit"], cost=1 + i["n"])
+for i in _gi.guard_shape_instances():
+    H(i["name"], "guard.rs", "GUARD(shape)", ["C01", "C03", "C09"], i["tier"],
+      "%s on the shape [x, MARK, %d items]: x any of the 18 variants, items in {NONE, TUPLE, CALLABLE, MARK}; flags symbolic"
+      % (i["opname"], i["n"]), stubs=HEAP_STUBS, funcs=["Generator::can_emit", "Generator::{has_mark,is_*_at_mark,count_items_to_mark,is_callable_above_mark}"],
+      cost=2 + i["n"], thorough_only_for=["C09"])
 for i in _gi.step_instances():
     memo = i["opname"] in ("PUT", "BINPUT", "LONG_BINPUT", "MEMOIZE", "GET", "BINGET", "LONG_BINGET")
     borrow = i["opname"] in ("APPEND", "APPENDS", "SETITEM", "SETITEMS", "ADDITEMS", "BUILD")
